@@ -57,6 +57,20 @@ def fresh_eval(exprs, preamble="import numpy as np", timeout=120):
         return list(ex.map(one, exprs))
 
 
+def lattice_fingerprint(l, with_plaquettes=True):
+    """everything a caller can read off a lattice that a function receiving it has no business changing"""
+    import hashlib
+    h = hashlib.sha1()
+    for a in (l.vertices.positions, l.edges.indices, l.edges.crossing, l.edges.vectors):
+        h.update(np.ascontiguousarray(a).tobytes())
+    if with_plaquettes:
+        for p in l.plaquettes:
+            for a in (p.vertices, p.edges, p.directions, p.center):
+                h.update(np.ascontiguousarray(a).tobytes())
+        h.update(np.ascontiguousarray(l.edges.adjacent_plaquettes).tobytes())
+    return h.hexdigest()
+
+
 def history_check(ctx, preamble, exprs, label="call"):
     """'the same call gives the same result whatever was called before': evaluate each expression here, at the end of a run that has made thousands of other
     calls, and as the first call of a fresh interpreter; any difference is a dependence on history (a cache keyed on too little, shared mutable state)"""
